@@ -60,7 +60,7 @@ func (r *rng) rangeInt(lo, hi int) int { // inclusive
 	}
 	return lo + r.intn(hi-lo+1)
 }
-func (r *rng) chance(p float64) bool { return float64(r.u64()%1000000)/1000000.0 < p }
+func (r *rng) chance(p float64) bool    { return float64(r.u64()%1000000)/1000000.0 < p }
 func (r *rng) pick(xs ...string) string { return xs[r.intn(len(xs))] }
 func (r *rng) pickInt(xs ...int) int    { return xs[r.intn(len(xs))] }
 
@@ -117,12 +117,12 @@ type call struct {
 	ctx    context.Context
 	connID int64
 	res    chan sqlResult
-	zkc    *memConn // for zk dial
-	stk uint64 // hash of the submitting goroutine's call stack: goroutine-stable tie-break
-	it  *iterRec // state-handler invocation of src that was open when the call was issued
-	ev  *SQLEvent // event of a statement whose reply is deferred (blocked SET read_only)
+	zkc    *memConn      // for zk dial
+	stk    uint64        // hash of the submitting goroutine's call stack: goroutine-stable tie-break
+	it     *iterRec      // state-handler invocation of src that was open when the call was issued
+	ev     *SQLEvent     // event of a statement whose reply is deferred (blocked SET read_only)
 	issued time.Duration // instant at which the caller issued the call
-	marker *SQLEvent // pending-attempt marker of a delayed statement
+	marker *SQLEvent     // pending-attempt marker of a delayed statement
 	// filled by controller
 	key  string // stable identity incl. occurrence number
 	done bool
@@ -149,10 +149,10 @@ type Sim struct {
 	zk    *ZKServer
 	net   *Net
 
-	daemons  map[string]*Daemon // by incarnation id
-	hostInc  map[string]int     // host -> incarnation counter
+	daemons    map[string]*Daemon // by incarnation id
+	hostInc    map[string]int     // host -> incarnation counter
 	liveByHost map[string]*Daemon
-	dir      string
+	dir        string
 
 	mon *Monitors
 
@@ -167,13 +167,13 @@ type Sim struct {
 	stop     bool
 	stopWhy  string
 
-	pilotCalls []string
-	held       []*call
+	pilotCalls  []string
+	held        []*call
 	stmtFailHit bool
 	crashInc    string // armed: incarnation inside a switchover attempt
 	crashCount  int
 	crashDone   bool
-	bHist      *[]*dcsHist
+	bHist       *[]*dcsHist
 }
 
 func (s *Sim) now() time.Duration { return time.Since(s.t0) }
